@@ -6,8 +6,8 @@
   * `paras`      — a text split into paragraphs: maximal runs of non-empty lines.
   * `governing`  — which `virtualdomains` entry applies to an address, as qmail-send.9 describes it
                    (exact domain, else the longest `.suffix` wildcard, else the catch-all).
-  * `namedRecipient` — the address a bounce must name: locals first, then an exception entry for the
-                   whole recipient, then virtual users, then virtual domains (the order of `rewrite()`).
+  * `namedRecipient` — the address a bounce must name, per channel: remote = as stored; local =
+                   locals first, then virtual users, then virtual domains (the order of `rewrite()`).
   * `Sanit`      — "the failure text is shown": same bytes, except that an LF may appear as '/'.
 -/
 import Nq.Basic
@@ -104,7 +104,7 @@ def userCut (es : List (Bytes × Bytes)) (x : Bytes × Bytes) : Option Bytes :=
 def userSplit (es : List (Bytes × Bytes)) (recip : Bytes) : Option Bytes :=
   (splits recip).findSome? (userCut es)
 
-/-- rules 3 and 4 (the recipient is at a non-local domain `d` and has no exception entry of its own):
+/-- rules 2 and 3 (the local-channel recipient is at a non-local domain `d`):
 a virtual-user prefix is removed; otherwise the governing domain entry's `prepend-` is removed if the
 recipient starts with it -/
 def prefixUndone (es : List (Bytes × Bytes)) (recip d : Bytes) : Bytes :=
@@ -114,33 +114,28 @@ def prefixUndone (es : List (Bytes × Bytes)) (recip d : Bytes) : Bytes :=
     | some p => if !p.isEmpty && (p ++ [45]).isPrefixOf recip then recip.drop (p.length + 1) else recip
     | none => recip
 
-/-- the recipient has a virtualdomains entry of its own with an empty prepend (`user@domain:`):
-qmail-send(8) "an empty prepend means … not a virtual domain"; `rewrite()` looks the whole address up
-first and leaves such a recipient exactly as it is (it goes to the remote channel) -/
-def hasException (es : List (Bytes × Bytes)) (recip : Bytes) : Bool := entryFor es recip == some []
-
-/-- the address a bounce must name for the recipient `recip` of a channel file, following the lookup
-order of `rewrite()` (whole address, then domain entries):
-1. a recipient at a domain listed in `locals` was never rewritten — as it is;
-2. a recipient with an exception entry of its own was never rewritten — as it is;
-3. otherwise a virtual-user prefix is removed;
-4. otherwise the governing domain entry's `prepend-` is removed if it is there -/
-def namedRecipient (ls : List Bytes) (es : List (Bytes × Bytes)) (recip : Bytes) : Bytes :=
+/-- the address a bounce must name for a recipient `recip` stored in a channel file.
+`rewrite()` puts a recipient on the remote channel exactly as it is: `loc = false` — as it is.
+On the local channel (`loc = true`) the prefix `rewrite()` put there is undone, in `rewrite()`'s order:
+1. a recipient at a domain listed in `locals` was never given one — as it is;
+2. otherwise a virtual-user prefix is removed;
+3. otherwise the governing domain entry's `prepend-` is removed if it is there.
+(No look-up of the whole stored string for an exception entry: on the local channel the stored string
+is `prepend-address`, and an exception entry for THAT string says nothing about `address`.) -/
+def namedRecipient (loc : Bool) (ls : List Bytes) (es : List (Bytes × Bytes)) (recip : Bytes) : Bytes :=
+  if !loc then recip else
   match domainPart recip with
   | none => recip
-  | some d =>
-    if isLocal ls d then recip
-    else if hasException es recip then recip
-    else prefixUndone es recip d
+  | some d => if isLocal ls d then recip else prefixUndone es recip d
 
 /-- first line of a recipient paragraph: `<` address with LF shown as `_` `>:` LF -/
 def recipLine (addr : Bytes) : Bytes :=
   60 :: (addr.map (fun c => if c = LF then 95 else c) ++ [62, 58, LF])
 
 /-- the i-th paragraph begins with the line naming the i-th failed recipient (and there are equally many) -/
-def NamedInOrder (ls : List Bytes) (es : List (Bytes × Bytes)) : List (Bytes × Bytes) → List Bytes → Prop
+def NamedInOrder (ls : List Bytes) (es : List (Bytes × Bytes)) : List (Bool × Bytes × Bytes) → List Bytes → Prop
   | [], [] => True
-  | f :: fs, p :: ps => recipLine (namedRecipient ls es f.1) <+: p ∧ NamedInOrder ls es fs ps
+  | f :: fs, p :: ps => recipLine (namedRecipient f.1 ls es f.2.1) <+: p ∧ NamedInOrder ls es fs ps
   | _, _ => False
 
 /-! ### control files as documented (qmail-control(5)): one entry per line, trailing spaces and tabs
